@@ -77,8 +77,19 @@ class Gen:
         self.feats = set()
 
     def fresh(self, b):
+        """a new name.  Digit-free unless the category is `gensym-digits`: utils.Gensym re-checks a bumped
+        name `base<counter>` under a stale hash (finding C12 'Gensym.refresh stale hash'), so a source name
+        with a digit suffix can be handed out again by the pass."""
         self.n += 1
-        return f'{b}{self.n}'
+        if self.cat == 'gensym-digits':
+            return f'{b}{self.n}'
+        k, s = self.n, ''
+        while True:
+            s = 'abcdefghijklmnopqrstuvwxyz'[k % 26] + s
+            k //= 26
+            if k == 0:
+                break
+        return f'{b}_{s}'
 
     def small_ctx(self):
         r = self.r
@@ -96,7 +107,7 @@ class Gen:
         for nm, s in self.consts.items():
             if s.key() == spec.key() and name is None:
                 return Node('ctxval', nm, s)
-        nm = name or f'K{len(self.consts)}'
+        nm = name or ('K' + 'ABCDEFGHIJKLMNOPQRSTUVWXYZ'[len(self.consts) % 26] + 'ABCDEFGHIJKLMNOPQRSTUVWXYZ'[len(self.consts) // 26])
         self.consts[nm] = spec
         return Node('ctxval', nm, spec)
 
@@ -287,7 +298,7 @@ class Gen:
     def program(self):
         r, cat = self.r, self.cat
         rv, lv = ['x', 'y'], ['xs', 'ys']
-        if cat in ('safe', 'safe-deep'):
+        if cat in ('safe', 'safe-deep', 'gensym-digits'):
             kinds = ['pure', 'mut', 'wth', 'loop']
             r.shuffle(kinds)
             hs = [self.helper(k) for k in kinds[:r.randint(2, 3)]]
@@ -560,6 +571,7 @@ KEY_OF_CAT = {
     'with-target': 'inline-with-target-not-renamed',
     'hdr-computed': 'inline-header-argument-context',
     'onelevel-freevar': 'inline-one-level-free-var-clash',
+    'gensym-digits': 'inline-gensym-stale-hash',
     'lift-computed': 'lift-computed-constructor-context',
     'lift-const-var': 'lift-above-constant-variable',
 }
@@ -627,8 +639,12 @@ def run(ck):
 
     # ------------------------------------------------------------ inline
     cats = (['safe'] * 10 + ['safe-deep'] * 3 + ['expr-pure'] * 3 + ['hoist-order', 'conditional', 'with-target',
-            'with-target-used', 'comp-var', 'while-cond', 'hdr-computed', 'onelevel-freevar'])
+            'with-target-used', 'comp-var', 'while-cond', 'hdr-computed', 'onelevel-freevar', 'gensym-digits'])
     nprog = 260 if thorough else 58
+    import os
+    dbg = int(os.environ.get('C09_DEBUG_N', '0'))
+    if dbg:
+        nprog = dbg
     nargs = 8 if thorough else 6
     t0 = time.time()
     for idx in range(nprog):
@@ -708,6 +724,8 @@ def run(ck):
     # ------------------------------------------------------------ mono
     t0 = time.time()
     nmono = 60 if thorough else 16
+    if dbg:
+        nmono = max(2, dbg // 6)
     for idx in range(nmono):
         rng = Rng(ck.seed, f'c09-mono-{idx}')
         g = Gen(rng, 'safe')
@@ -764,6 +782,8 @@ def run(ck):
     t0 = time.time()
     lcats = ['lift'] * 6 + ['lift-computed', 'lift-const-var']
     nlift = 120 if thorough else 32
+    if dbg:
+        nlift = max(8, dbg // 3)
     for idx in range(nlift):
         cat = lcats[idx % len(lcats)]
         rng = Rng(ck.seed, f'c09-lift-{idx}')
@@ -807,6 +827,8 @@ def run(ck):
     # ------------------------------------------------------------ close
     t0 = time.time()
     nclose = 60 if thorough else 16
+    if dbg:
+        nclose = max(2, dbg // 6)
     for idx in range(nclose):
         rng = Rng(ck.seed, f'c09-close-{idx}')
         try:
@@ -858,9 +880,7 @@ def run(ck):
     for i in bad:
         meta = info[i]
         out = ck.coq_eval_raw(HEADER, f'model9 {cases[i]}', name=f'diag_{i:05d}', timeout=300)
-        key = None
-        if meta.get('category') == 'lift-computed':
-            key = None      # the model lifts computed header arguments as the code does: a mismatch is a mismatch
+        key = 'inline-gensym-stale-hash' if meta.get('category') == 'gensym-digits' else None
         ck.violation('the output of the real strategy is not the output of the Gallina model (up to renaming), or a refusal does '
                      'not coincide with the model\'s None', dict(meta, model_says=out[-2500:]), key=key)
     nf, err2 = ck.coq_eval_mismatches(HEADER, 'case9', cases, 'notfrag9', chunk=max(2, len(cases) // 32 + 1), timeout=1200, tag='frag')
